@@ -11,10 +11,10 @@
    model Leaf/GTime.GT2time_frac returns (tloc, fvalue, fdigits) and turns the C's
    "tloc == -1" into GtFail, so the canonicaliser is the composition below.
 
-   UTCTime: asn_OP_UTCTime has OCTET_STRING_encode_der — the stored text is written as it
-   is ([ut_der]).  [ut_canon] is what UTCTime_encode_xer computes under XER_F_CANONICAL
-   (asn_UT2time as_gmt = 1, then asn_time2UT force_gmt = 1) and then does not use; it is
-   the canonicaliser proposed as a patch (notes/design/C06-fix-7.diff).
+   UTCTime (fix 05 of notes/fixes/I): [ut_canon] is what UTCTime_encode_der and the
+   XER_F_CANONICAL branch of UTCTime_encode_xer compute and write (asn_UT2time as_gmt = 1,
+   then asn_time2UT force_gmt = 1).  UTCTime_encode_der writes the stored text when
+   asn_UT2time does not read it ([ut_der]); the canonical XER encoder fails then.
 
    [gt_fast_ok] / [gt_canon_fast] model the "already canonical" fast path of the seeded
    change C06-7 (10, 12 or 14 leading digits are accepted), [gt_fast14_ok] the same with
@@ -32,13 +32,15 @@ Definition gt_canon (bs : list Z) (lg : Z) : option (list Z) :=
   | _ => None
   end.
 
-Definition ut_der (bs : list Z) : list Z := bs.
-
 Definition ut_canon (bs : list Z) (lg : Z) : option (list Z) :=
   match UT2time bs lg with
   | GtOk t _ _ => time2UT (gmtime t) true
   | _ => None
   end.
+
+(* UTCTime_encode_der: the canonical form of what asn_UT2time read; a text it does not read is written as stored *)
+Definition ut_der (bs : list Z) (lg : Z) : list Z :=
+  match ut_canon bs lg with Some out => out | None => bs end.
 
 (* ---- what the output depends on ---- *)
 
@@ -102,17 +104,17 @@ Definition gt_canon_fast := gt_canon_with gt_fast_ok.
 Definition gt_canon_fast14 := gt_canon_with gt_fast14_ok.
 
 (* ---- compare_struct: the fraction branch of GeneralizedTime_compare (instants equal) ----
-   if(afrac_digits == bfrac_digits) by the values; else if(afrac_digits == 0) -1;
-   else if(bfrac_digits == 0) 1; else (double)afrac_value / afrac_digits against
-   (double)bfrac_value / bfrac_digits — the divisor is the NUMBER of digits.  The two
-   correctly rounded quotients of numbers below 2^31 by small positive integers compare
-   as the exact rationals do (distinct quotients differ by more than 2^-41 relatively),
-   so the doubles are modelled by cross-multiplication. *)
+   (as repaired by notes/design/C06-fix-9.diff, round fixI)
+   if(afrac_digits == bfrac_digits) by the values; else (double)afrac_value / 10^afrac_digits
+   against (double)bfrac_value / 10^bfrac_digits (the scales built by repeated *= 10, exact
+   for the at most 10 digits asn_GT2time_frac counts).  value < 10^digits, so both quotients
+   lie in [0, 1); each is the correctly rounded image of the exact rational, so equal
+   rationals give the same double and distinct ones (at least 10^-10 apart) different
+   doubles in the same order: the doubles are modelled by cross-multiplication. *)
 Definition frac_cmp_c (av ad bv bd : Z) : comparison :=
   if ad =? bd then av ?= bv
-  else if ad =? 0 then Lt
-  else if bd =? 0 then Gt
-  else av * bd ?= bv * ad.
+  else av * 10 ^ bd ?= bv * 10 ^ ad.
 
-(* notes/design/C06-fix-9.diff: value / 10^digits on both sides *)
+(* the specification: the order of the fraction VALUES value / 10^digits (the comparison
+   notes/design/C06-fix-9.diff proposed; the name is kept for the extracted command) *)
 Definition frac_cmp_fix (av ad bv bd : Z) : comparison := av * 10 ^ bd ?= bv * 10 ^ ad.
